@@ -98,8 +98,11 @@ class CallMixin:
         p.env[name] = self.om_named(self.om_set(om, key, obj), p, name)
 
     # ------------------------------------------------------------------ stores
-    def store(self, target, v, p):
+    def store(self, target, v, p, inplace=False):
         if isinstance(target, ast.Name):
+            if not inplace and self.cur is not None and target.id in self.cur.modifies_args and target.id in self.cur.params \
+                    and not isinstance(p.env.get(target.id, SV(T.NONE)).ty, T.Obj):
+                raise Unsupported(f"argument `{target.id}` is declared as modified in place but is re-bound")
             hint = self.cur.locals.get(target.id) if self.cur else None
             if hint is not None:
                 # "A|B": a local re-bound to values of different types (e.g. `edges = set(edges)`): the first alternative that fits
@@ -150,21 +153,21 @@ class CallMixin:
                 if not (isinstance(v.ty, T.Obj) and v.ty.cls == base.ty.cls):
                     raise Unsupported(f"store of {v.ty} into {base.ty}")
                 k = self.coerce(key, base.ty.k)
-                return self.store(target.value, self.om_set(base, k.t, v), p)
+                return self.store(target.value, self.om_set(base, k.t, v), p, inplace=True)
             if isinstance(base.ty, T.Map):
                 k = self.coerce(key, base.ty.k)
                 val = self.coerce(v, base.ty.v)
                 nb = T.sv_map(base.ty.k, base.ty.v, z3.Store(base.dom, k.t, True), z3.Store(base.val, k.t, val.t))
-                return self.store(target.value, nb, p)
+                return self.store(target.value, nb, p, inplace=True)
             if base.ty == T.META:
                 if key.ty != T.FIELD:
                     raise Unsupported("metadata store with non-field key")
                 val = self.coerce(v, T.VAL)
-                return self.store(target.value, T.scalar(T.META, TH.mset(base.t, key.t, val.t)), p)
+                return self.store(target.value, T.scalar(T.META, TH.mset(base.t, key.t, val.t)), p, inplace=True)
             if isinstance(base.ty, T.Seq):
                 j = self.coerce(key, T.INT).t
                 self._raise_if(p, z3.Or(j >= base.len, j < 0), "IndexError", f"line {target.lineno}")
-                return self.store(target.value, T.sv_seq(base.ty.e, base.len, z3.Store(base.at, j, self.coerce(v, base.ty.e).t)), p)
+                return self.store(target.value, T.sv_seq(base.ty.e, base.len, z3.Store(base.at, j, self.coerce(v, base.ty.e).t)), p, inplace=True)
             raise Unsupported(f"subscript store on {base.ty}")
         if isinstance(target, (ast.Tuple, ast.List)):
             if isinstance(v.ty, T.Multi) and len(target.elts) == len(v.items):
@@ -187,15 +190,24 @@ class CallMixin:
         if isinstance(base.ty, T.Map):
             k = self.coerce(key, base.ty.k)
             self._raise_if(p, z3.Not(base.dom[k.t]), "KeyError", note)
-            return self.store(target.value, T.sv_map(base.ty.k, base.ty.v, z3.Store(base.dom, k.t, False), base.val), p)
+            return self.store(target.value, T.sv_map(base.ty.k, base.ty.v, z3.Store(base.dom, k.t, False), base.val), p, inplace=True)
         if base.ty == T.META and key.ty == T.FIELD:
             self._raise_if(p, z3.Not(TH.mhas(base.t, key.t)), "KeyError", note)
-            return self.store(target.value, T.scalar(T.META, TH.mdel(base.t, key.t)), p)
+            return self.store(target.value, T.scalar(T.META, TH.mdel(base.t, key.t)), p, inplace=True)
         raise Unsupported(f"del on {base.ty}")
 
     # ------------------------------------------------------------------ calls
     def ev_Call(self, e, p):
         f = e.func
+        fname = f.id if isinstance(f, ast.Name) else f.attr if isinstance(f, ast.Attribute) else None
+        if fname is not None and self.cur is not None and ("opaque:" + fname) in self.cur.options and not self.spec_mode:
+            # declared opaque by the contract (ASSUMED: the call has no effect on any modelled value; its arguments are not even evaluated,
+            # they must not contain calls that matter): the result can only be passed on or compared
+            for n in ast.walk(ast.Module(body=[ast.Expr(value=a) for a in list(e.args) + [k.value for k in e.keywords]], type_ignores=[])):
+                if isinstance(n, ast.Call) and not (isinstance(n.func, ast.Name) and n.func.id in ("len", "tuple", "list", "set")) \
+                        and not (isinstance(n.func, ast.Attribute) and n.func.attr in ("array",)):
+                    raise Unsupported(f"call inside the arguments of the opaque call {fname}")
+            return SV(T.OPAQUE)
         if any(isinstance(a, ast.Starred) for a in e.args) or any(k.arg is None for k in e.keywords):
             raise Unsupported("star-args")
         if isinstance(f, ast.Name):
@@ -233,6 +245,11 @@ class CallMixin:
             if f.attr == "choice" and isinstance(f.value, ast.Attribute) and f.value.attr in ("_rng", "rng") \
                     or (f.attr == "choice" and isinstance(f.value, ast.Name) and f.value.id in ("rng", "_rng")):
                 return self.rng_choice(e, p)
+            if f.attr == "random" and not e.args and not e.keywords and \
+                    (isinstance(f.value, ast.Attribute) and f.value.attr in ("_rng", "rng") or isinstance(f.value, ast.Name) and f.value.id in ("rng", "_rng")):
+                r = fresh("rand", T.R)         # Generator.random(): a float in [0, 1); assumed contract of numpy
+                self._assume(p, z3.And(r >= 0, r < 1))
+                return T.sv_real(r)
             lib = self.library_call(f, e, p)
             if lib is not None:
                 return lib
@@ -249,6 +266,18 @@ class CallMixin:
                                               patterns=[at[TH.FLAT(i, j, c)]]))
                     self._assume(p, z3.And(n == TH.FLATLEN(r, c), n >= 0))
                     return T.sv_seq(T.REAL, n, at)
+                if f.attr == "sum" and not e.args and len(e.keywords) == 1 and e.keywords[0].arg == "axis" \
+                        and isinstance(e.keywords[0].value, ast.Constant) and e.keywords[0].value.value == 1:
+                    # a.sum(axis=1) of an r x c matrix: the r x 1 column of row sums; ROWSUM(cells, i, c) is a specification function (a sum
+                    # over the c cells of row i; only its dependence on that row is stated: axiom rowsum_ext). Assumed library contract.
+                    r, c, m = recv.fields["_r"].t, recv.fields["_c"].t, recv.fields["_m"]
+                    pt = T.Pair(T.INT, T.INT)
+                    dom = fresh("rs_dom", z3.ArraySort(pt.sort(), T.B))
+                    val = fresh("rs_val", z3.ArraySort(pt.sort(), T.R))
+                    i, j = fresh("i", T.I), fresh("j", T.I)
+                    self._assume(p, z3.ForAll([i, j], dom[pt.mk(i, j)] == z3.And(0 <= i, i < r, j == 0), patterns=[dom[pt.mk(i, j)]]))
+                    self._assume(p, z3.ForAll([i], z3.Implies(z3.And(0 <= i, i < r), val[pt.mk(i, 0)] == TH.ROWSUM(m.val, i, c)), patterns=[val[pt.mk(i, 0)]]))
+                    return T.sv_obj("NpArray2", {"_m": T.sv_map(pt, T.REAL, dom, val), "_r": T.sv_int(r), "_c": T.sv_int(z3.IntVal(1))})
                 raise Unsupported(f"numpy array method {f.attr}")
             if isinstance(recv.ty, T.Obj) and recv.ty.cls in NX_MODIFIES:
                 return self.nx_method(recv, f, e, p)
@@ -349,6 +378,11 @@ class CallMixin:
             i, j = fresh("i", T.I), fresh("j", T.I)
             self._assume(p, z3.ForAll([i, j], dom[pt.mk(i, j)] == z3.And(0 <= i, i < r, 0 <= j, j < c), patterns=[dom[pt.mk(i, j)]]))
             return T.sv_obj("NpArray2", {"_m": T.sv_map(pt, T.REAL, dom, z3.K(pt.sort(), z3.RealVal(0))), "_r": T.sv_int(r), "_c": T.sv_int(c)})
+        if name in ("np.matrix", "numpy.matrix", "sparse.csr_matrix", "scipy.sparse.csr_matrix") and len(e.args) == 1 and not e.keywords:
+            v = self.ev(e.args[0], p)
+            if isinstance(v.ty, T.Obj) and v.ty.cls == "NpArray2":
+                return v           # the same table of numbers in another container (assumed library contract)
+            raise Unsupported(f"{name} of {v.ty}")
         if name in ("np.array", "numpy.array") and len(e.args) == 1 and not e.keywords:
             v = self.ev(e.args[0], p)
             if v.ty == T.EMPTYLIST:
@@ -442,6 +476,14 @@ class CallMixin:
         if len(e.args) != 1 or "size" not in kw or not (isinstance(kw.get("replace"), ast.Constant) and kw["replace"].value is False):
             raise Unsupported("rng.choice in a form other than choice(list, size=k, replace=False)")
         pop = self.ev(e.args[0], p)
+        if pop.ty == T.INT and isinstance(kw["size"], ast.Constant) and kw["size"].value == 2:
+            # choice(n, size=2, replace=False): two different positions below n (ValueError when n < 2); assumed contract of numpy
+            n = pop.t
+            self._raise_if(p, n < 2, "ValueError", f"line {e.lineno}")
+            a, b = fresh("pick", T.I), fresh("pick", T.I)
+            self._assume(p, z3.And(0 <= a, a < n, 0 <= b, b < n, a != b))
+            pt = T.Pair(T.INT, T.INT)
+            return T.scalar(pt, pt.mk(a, b))
         if not isinstance(pop.ty, T.Bag):
             raise Unsupported(f"rng.choice over {pop.ty}")
         k = self.coerce(self.ev(kw["size"], p), T.INT).t
